@@ -102,6 +102,9 @@ func Generate(profile string, seed uint64, tier string) (*Scenario, error) {
 	case "C10":
 		sc.Property = "C10"
 		genC10(g, sc, tier, seed)
+	case "C17":
+		sc.Property = "C17"
+		genC17(g, sc, tier, seed)
 	case "C20":
 		sc.Property = "C20"
 		c := g.baseStoreCfg(tier)
@@ -393,7 +396,7 @@ func Execute(sc *Scenario) *Verdict {
 	switch sc.Profile {
 	case "C01", "C02", "C03", "C06", "C12":
 		return RunStoreScenario(sc)
-	case "C08", "C10":
+	case "C08", "C10", "C17":
 		return RunJobScenario(sc)
 	case "C05", "C02c", "C12c", "C13c", "C19c":
 		return RunConcScenario(sc)
@@ -909,4 +912,73 @@ func genC10(g *G, sc *Scenario, tier string, seed uint64) {
 		sc.Ops = append(sc.Ops, Op{K: "run", S: "job1", DS: jobType, N: 1})
 	}
 	sc.Note = fmt.Sprintf("cell count=%d batch=%d parallelism=%d %s %s", count, batch, par, jobType, variant)
+}
+
+// genC17 enumerates, by seed index, every subset of rejected entities for batches of 1-6
+// entities, crossed with maxItems 0-3; beyond that box larger batches are sampled. Every fourth
+// scenario adds a reRun handler, some use transient rejections or a sink that always fails.
+func genC17(g *G, sc *Scenario, tier string, seed uint64) {
+	idx := int(seed % 10_000_000)
+	// cells: for n=1..6: 2^n masks; total 126 masks; x4 maxItems = 504 cells
+	cell := idx % 504
+	maxItems := cell / 126
+	mcell := cell % 126
+	n, mask := 1, 0
+	for n = 1; n <= 6; n++ {
+		if mcell < 1<<n {
+			mask = mcell
+			break
+		}
+		mcell -= 1 << n
+	}
+	round := idx / 504
+	if round >= 4 {
+		n = g.Range(7, 12)
+		mask = int(g.r.Uint64() % (1 << uint(n)))
+		maxItems = g.Intn(5)
+	}
+	sc.Datasets = []string{"srcA", "sink"}
+	sc.Knobs["observeLogs"] = 1
+	jobType := "incremental"
+	batch := n
+	if round%2 == 1 {
+		batch = g.Range(1, n)
+	}
+	onError := []any{map[string]any{"errorHandler": "log", "maxItems": maxItems}}
+	spec := map[string]any{}
+	withRerun := round%4 >= 2
+	if withRerun {
+		onError = append(onError, map[string]any{"errorHandler": "reRun", "maxRetries": g.Range(0, 3), "retryDelay": g.PickInt([]int{0, 1, 5, 60})})
+		if g.P(0.5) {
+			jobType = "fullsync" // a fullsync re-reads everything, so a re-run meets the same rejections
+		}
+		if g.P(0.25) {
+			spec["sinkFailAlways"] = 1
+		}
+	}
+	if round%4 == 1 && g.P(0.5) {
+		spec["rejectTimes"] = g.Range(1, 3)
+	}
+	cfg := jobConfig("job1", map[string]any{"Type": "DatasetSource", "Name": "srcA"}, map[string]any{"Type": "DatasetSink", "Name": "sink"}, nil, jobType, batch)
+	cfg["paused"] = false
+	cfg["triggers"] = []any{map[string]any{"triggerType": "cron", "jobType": jobType, "schedule": "@every 10m", "onError": onError}}
+	sc.Ops = append(sc.Ops, Op{K: "addJob", M: cfg})
+	var ents []Ent
+	var rej []any
+	for i := 0; i < n; i++ {
+		id := fmt.Sprintf("%sx%02d", MkE, i)
+		ents = append(ents, Ent{"id": id, "props": map[string]any{MkS + "n": float64(i)}, "refs": map[string]any{}})
+		if mask&(1<<uint(i)) != 0 {
+			rej = append(rej, id)
+		}
+	}
+	spec["rejectIds"] = rej
+	sc.Ops = append(sc.Ops, Op{K: "batch", DS: "srcA", Ents: ents})
+	sc.Ops = append(sc.Ops, Op{K: "tick", S: "job1", M: spec})
+	if g.P(0.3) {
+		// a later tick with nothing rejected: must succeed and must not re-run
+		sc.Ops = append(sc.Ops, Op{K: "batch", DS: "srcA", Ents: []Ent{{"id": MkE + "later", "props": map[string]any{}, "refs": map[string]any{}}}})
+		sc.Ops = append(sc.Ops, Op{K: "tick", S: "job1", M: map[string]any{}})
+	}
+	sc.Note = fmt.Sprintf("cell n=%d mask=%b maxItems=%d round=%d", n, mask, maxItems, round)
 }
